@@ -112,6 +112,9 @@ pub fn run(seed: u64, n: usize, sink: &mut Sink) {
         let mut rr = r.fork();
         let mut o = ss_opts(&mut rr, t, t % 5 != 4);
         if o.init == 2 { o.init = 1; }
+        // every fourth run starts with a state clock that differs from the trace's first time stamp
+        if o.init == 1 && t % 4 == 1 { o.init = 3; }
+        if o.init == 0 && t % 8 == 3 { o.init = 3; }
         let ctx = ss_run(&mut rr, format!("ss{}", t), &o);
         emit_steps(&mut rr, &ctx, true, per_run, sink, &oracle_c14, &tags_c14);
         emit_hist(&ctx, true, sink, &oracle_c14);
